@@ -223,7 +223,7 @@ func runReadBound(b *harness.B) {
 			b.Distinct("bound", name, "count-field", sizeClass(off))
 		}
 	}
-	b.SetAdd("read_bound_constants", "rhp4 request: 16-byte RPC id (ReadID) + maxLen; rhp4 response: 1024 (error allowance, includes the flag byte) + maxLen; gateway: maxRequestLen/maxResponseLen exactly; rhp2: 8-byte length prefix + max(limit,4096); rhp3: limit + 1024 (includes the 8-byte prefix)")
+	b.SetAdd("read_bound_constants", "rhp4 request: 16-byte RPC id (ReadID) + maxLen; rhp4 response: 1 (flag byte) + 1024 (error allowance) + maxLen; gateway: maxRequestLen/maxResponseLen exactly; rhp2: 8-byte length prefix + max(limit,4096); rhp3: limit + 1024 (includes the 8-byte prefix)")
 }
 
 // ---- error delivery ----
@@ -250,7 +250,7 @@ func runErrorDelivery(b *harness.B) {
 			buf.Write([]byte{0xEE, 0xEE})
 			cr := &countReader{r: &buf}
 			err := rhp4.ReadResponse(cr, s.fresh())
-			wit := map[string]any{"response_type": s.name, "code": code, "description_len": dl, "encoded_bytes": encLen, "receiver_limit": szErr + s.limit}
+			wit := map[string]any{"response_type": s.name, "code": code, "description_len": dl, "encoded_bytes": encLen, "receiver_limit": 1 + szErr + s.limit}
 			var got *rhp4.RPCError
 			lenClass := "short"
 			if dl >= maxDesc-2 {
